@@ -51,5 +51,29 @@ extern "C" void h_div_fold() {
     if (vfr_slot_is_neg(1) && vfr_slot_is_neg(0)) { VWITNESS("both-negative"); }
     VWITNESS("div");
 }
+
+// C18 / C14: an explicit division by the constant zero is rejected with ArithDivisionByZeroException, whatever the dividend - it is
+// never folded (no division by zero is executed) and no term is built
+template<bool MOD> static void div_by_zero() {
+    FastRational n, d; PTRef tn, td;
+    init_logic(&rawl.l);
+    L->sort_INT = SRef{7}; L->sort_REAL = SRef{8};
+    L->term_Int_ONE = PTRef{21}; L->term_Int_MINUSONE = PTRef{22};
+    L->term_Real_ZERO = PTRef{23}; L->term_Real_ONE = PTRef{24}; L->term_Real_MINUSONE = PTRef{25};
+    L->sym_Real_ZERO = SymRef{30};
+    int32_t nv = nondet_i32(); VASSUME(nv >= -40 && nv <= 40);
+    bool const_dividend = nondet_bool();
+    tn = const_dividend ? mkConst(nv) : mkVar(0);
+    td = mkConst(0); L->term_Int_ZERO = td; L->sym_Int_ZERO = nodes[td.x].pt->sym;   // the distinguished zero constant (term and symbol) is a real table node with value 0
+    vec<PTRef> args; args.push(tn); args.push(td);
+    bool thrown = false; PTRef r = PTRef_Undef;
+    try { r = MOD ? L->mkMod(std::move(args)) : L->mkIntDiv(std::move(args)); }
+    catch (ArithDivisionByZeroException const &) { thrown = true; }
+    VASSERT(thrown, "division by the constant zero is rejected with ArithDivisionByZeroException");
+    VASSERT(nfold == 0, "nothing is folded for a zero divisor");
+    if (const_dividend) { VWITNESS("constant-dividend"); } else { VWITNESS("variable-dividend"); }
+}
+extern "C" void h_div_zero() { div_by_zero<false>(); }
+extern "C" void h_mod_zero() { div_by_zero<true>(); }
 extern "C" bool stub_hasIntegers(Logic const *) { return true; }
 extern "C" bool stub_hasReals(Logic const *) { return false; }
